@@ -1110,6 +1110,8 @@ def m_len(ev, vals, n, s, path, gens):
 @suffix_model(r"(slice::<impl \[T\]>|vec::Vec<T, A>|str::<impl str>|string::String)::is_empty$")
 def m_is_empty(ev, vals, n, s, path, gens):
     v = ev.deref_val(vals[0], s)
+    if isinstance(v, tuple) and v and v[0] == "array":
+        return [(T.TRUE if not v[1] else T.FALSE, s)]
     return [(T.cmp("eq", 64, ("call", "len", (v,), 64), T.K(64, 0)), s)]
 
 
@@ -1433,8 +1435,11 @@ SUFFIX_MODELS.insert(0, SUFFIX_MODELS.pop())
 def m_concrete_index(ev, vals, n, s, path, gens):
     v = ev.deref_val(vals[0], s)
     i = vals[1]
-    if isinstance(v, tuple) and v and v[0] == "array" and T.is_k(i) and i[2] < len(v[1]):
-        return [(v[1][i[2]], s)]
+    if isinstance(v, tuple) and v and v[0] == "array" and T.is_k(i):
+        if i[2] < len(v[1]):
+            return [(v[1][i[2]], s)]
+        # a constant index past the end of a concrete vector: the indexing panics
+        return [(("opaque", "index-out-of-bounds", 0), s.effect(("call", "core::panicking::panic_bounds_check", (i, T.K(64, len(v[1]))), UNIT)).fork(exit=("panic", "index out of bounds")))]
     return None
 
 
@@ -1531,6 +1536,38 @@ SUFFIX_MODELS.insert(0, SUFFIX_MODELS.pop())
 @suffix_model(r"HashMap<K, V>::new$|HashMap<K, V, S>::default$|BTreeMap<K, V>::new$")
 def m_map_new(ev, vals, n, s, path, gens):
     return [(("map", ()), s)]
+
+
+def m_vec_push(ev, n, st, fp, path, gens):
+    """Vec::push: always recorded as a call effect (clients read the effects); in concrete-folding
+    mode a vector that started as `Vec::new()` / `vec![]` is also kept as a concrete array value so
+    that is_empty / len / indexing on it fold"""
+    out = []
+    for p, s in ev.ev_place(n["args"][0], st, fp):
+        cur = ev.read_place(p, s)
+        if isinstance(cur, tuple) and cur and cur[0] == "ref":
+            p = cur[1]
+            cur = ev.read_place(p, s)
+        for vals, s2 in ev.seq_ev(n["args"][1:], s, fp):
+            s3 = s2.effect(("call", path, (("ref", p), vals[0]), UNIT))
+            if ev.unroll and isinstance(cur, tuple) and cur and cur[0] == "array":
+                s3 = ev.write_place(p, ("array", tuple(cur[1]) + (vals[0],)), s3)
+            out.append((UNIT, s3))
+    return out
+
+
+m_vec_push.wants_nodes = True
+SUFFIX_MODELS.insert(0, (re.compile(r"vec::Vec<T, A>::push$"), m_vec_push))
+
+
+@suffix_model(r"vec::Vec<T>::new$")
+def m_vec_new(ev, vals, n, s, path, gens):
+    if ev.unroll:
+        return [(("array", ()), s.effect(("call", path, (), ("array", ()))))]
+    return None
+
+
+SUFFIX_MODELS.insert(0, SUFFIX_MODELS.pop())
 
 
 def m_map_insert(ev, n, st, fp, path, gens):
